@@ -9,20 +9,26 @@ package serviceinfo
 //@   makelimit 65535
 //@   requires r.r != nil ==> hdr(len(r.key)) + len(r.key) <= len(r.rkey)
 //@   ensures @budget err == nil ==> kvsize(len(result0.Key), len(result0.Val)) <= int(size)
+//@   ensures @lens err == nil ==> len(result0.Key) <= 65535 && len(result0.Val) <= 65535
 //@   ensures @keyinv r.r != nil ==> hdr(len(r.key)) + len(r.key) <= len(r.rkey)
 //@   ensures @nonnil err == nil ==> result0 != nil
 //@   recvnonnil
+//@   callsites LimitReader 1
+//@   callassert LimitReader#1: @small size < 7 ==> arg1 >= 65529
+//@   callassert LimitReader#1: @limit size >= 7 ==> arg1 == int64(size) - 7
 //@   ensures @keepreader u(err) == u(ErrSizeTooSmall) ==> r.r != nil
 
 //@ func serviceinfo.cborEncodedLen
 //@   props C15
 //@   sweep panic
+//@   pure
 //@   requires len(b) <= 65535
 //@   ensures int(result) == (hdr(len(b)) + len(b)) % 65536
 
 //@ func serviceinfo.KV.Size
 //@   props C15
 //@   sweep nooverflow,panic
+//@   pure
 //@   requires len(kv.Key) <= 65535 && len(kv.Val) <= 65535 && kvsize(len(kv.Key), len(kv.Val)) <= 65535
 //@   ensures int(result) == kvsize(len(kv.Key), len(kv.Val))
 
